@@ -15,8 +15,11 @@ import copy
 import hashlib
 import json
 
-IMPORT_FORMS = ["from_import", "from_import_as", "import_mod_as", "from_pkg_import_mod", "import_full", "rel_from", "rel_mod", "alias_assign"]
-BARE_FORMS = ["from_import", "from_import_as", "rel_from", "alias_assign"]
+IMPORT_FORMS = ["from_import", "from_import_as", "import_mod_as", "from_pkg_import_mod", "import_full", "rel_from", "rel_mod", "alias_assign", "local_import_full"]
+BARE_FORMS = ["from_import", "from_import_as", "rel_from", "alias_assign", "local_from_import"]
+# function-local import forms that bind a new local name (not part of IMPORT_FORMS: the unchanged library does not
+# resolve them, see known finding C01 function-local-aliased-import-not-tracked; used by dedicated probes only)
+ALIASED_LOCAL_FORMS = ["local_from_import", "local_import_as", "local_from_pkg_import_mod"]
 
 VAR_KINDS = {
     "int": ["3", "4", "70000"],
@@ -132,6 +135,25 @@ def s_nested_def(const, vid=None):
     return {"k": "nested_def", "const": const, "var": vid}
 
 
+def s_lazy_call():
+    """Call into the program's lazily imported top-level module (p["lazy"]) through a function-local import."""
+    return {"k": "lazy_call"}
+
+
+def add_lazy(p, const=1, var="3"):
+    p["lazy"] = {"name": p["pkg"] + "_lz", "const": const, "var": var, "comment": "c0"}
+    return p["lazy"]
+
+
+def lazy_modules(p):
+    return [p["lazy"]["name"]] if p.get("lazy") else []
+
+
+def lazy_text(p):
+    z = p["lazy"]
+    return "# lazily imported top-level module\nfrom vp import vlog\n\nLZ_VAR = %s\n\n\ndef lz_helper():\n    # %s\n    vlog.hit(\"lz_helper\")\n    return (\"lazy\", %d, LZ_VAR)\n" % (z["var"], z["comment"], z["const"])
+
+
 def s_method(cid, arg_src):
     return {"k": "method", "cls": cid, "arg": arg_src}
 
@@ -167,6 +189,7 @@ class _Ctx(object):
         self.module = module
         self.imports = []  # lines
         self.alias_assigns = []
+        self.local_imports = []  # import statements written inside the body of the function being rendered
 
     def add(self, line):
         if line not in self.imports:
@@ -179,6 +202,8 @@ class _Ctx(object):
         if b == self.module:
             return f["name"]
         form = _import_form(p, self.module, b, need_bare)
+        if getattr(self, "fn_form", None) and (not need_bare or self.fn_form in BARE_FORMS):
+            form = self.fn_form  # the function being rendered spells its own cross-module references this way
         full = modname(p, b)
         if form == "from_import":
             self.add("from %s import %s" % (full, f["name"]))
@@ -209,6 +234,21 @@ class _Ctx(object):
             return "%s.%s" % (_mod_alias(b), f["name"])
         if form == "import_full":
             self.add("import %s" % full)
+            return "%s.%s" % (full, f["name"])
+        if form in ALIASED_LOCAL_FORMS:
+            parent, _, leaf = full.rpartition(".")
+            line, expr = {
+                "local_from_import": ("from %s import %s" % (full, f["name"]), f["name"]),
+                "local_import_as": ("import %s as %s" % (full, _mod_alias(b)), "%s.%s" % (_mod_alias(b), f["name"])),
+                "local_from_pkg_import_mod": ("from %s import %s" % (parent, leaf), "%s.%s" % (leaf, f["name"])),
+            }[form]
+            if line not in self.local_imports:
+                self.local_imports.append(line)
+            return expr
+        if form == "local_import_full":
+            # `import pkg.mod` written inside the calling function, the callee used by its full dotted name
+            if "import %s" % full not in self.local_imports:
+                self.local_imports.append("import %s" % full)
             return "%s.%s" % (full, f["name"])
         raise ValueError(form)
 
@@ -267,6 +307,17 @@ def _arg_src(ctx, fn, a):
 
 
 def render_fn(p, fid, ctx, prelude):
+    f = p["fns"][fid]
+    ctx.local_imports = ["import dds"] if f.get("local_dds") else []
+    ctx.fn_form = f.get("import_form")
+    lines = _render_fn_lines(p, fid, ctx, prelude)
+    ctx.fn_form = None
+    at = [i for i, l in enumerate(lines) if l.startswith("def ")][0] + 2
+    lines[at:at] = ["    " + l for l in ctx.local_imports]
+    return "\n".join(lines) + "\n"
+
+
+def _render_fn_lines(p, fid, ctx, prelude):
     f = p["fns"][fid]
     lines = []
     if f["data_path"] is not None:
@@ -338,6 +389,11 @@ def render_fn(p, fid, ctx, prelude):
         elif k == "method":
             c = p["classes"][s["cls"]]
             lines.append("    x%d = %s(%s).%s()" % (i, ctx.cls_expr(s["cls"]), s["arg"], c["method"]))
+        elif k == "lazy_call":
+            zn = p["lazy"]["name"]
+            if "import %s" % zn not in ctx.local_imports:
+                ctx.local_imports.append("import %s" % zn)
+            lines.append("    x%d = %s.lz_helper()" % (i, zn))
         else:
             raise ValueError(k)
         lines.append("    r.append(x%d)" % i)
@@ -351,7 +407,7 @@ def render_fn(p, fid, ctx, prelude):
         lines.append("    return \"|\".join(repr(y) for y in r)")
     else:
         lines.append("    return tuple(r)")
-    return "\n".join(lines) + "\n"
+    return lines
 
 
 def render_cls(p, cid, ctx):
@@ -362,7 +418,9 @@ def render_cls(p, cid, ctx):
     if c.get("var"):
         items.append(ctx.var_expr(c["var"], "bare"))
     if c.get("calls"):
+        ctx.local_imports = []
         items.append("%s()" % ctx.fn_expr(c["calls"]))
+        lines += ["        " + l for l in ctx.local_imports]
     lines.append("        return (%s,)" % ", ".join(items))
     return "\n".join(lines) + "\n"
 
@@ -403,6 +461,8 @@ def render(p):
                 files["%s/%s/__init__.py" % (pk, d)] = "# sub-package\n"
     for m in p["modules"]:
         files["%s/%s.py" % (pk, m.replace(".", "/"))] = render_module(p, m)
+    if p.get("lazy"):
+        files[p["lazy"]["name"] + ".py"] = lazy_text(p)
     if p.get("ext"):
         e = p["ext"]
         files[e["pkg"] + "/__init__.py"] = "# not accepted\nEXT_VAR = %s\n\n\ndef ext_helper():\n    # %s\n    return (\"ext\", %d)\n" % (e["var"], e["comment"], e["const"])
@@ -499,6 +559,8 @@ def _own_items(p, fid, memo, stack=(), externals=None):
                 if a["k"] == "var":
                     v = p["vars"][a["var"]]
                     items.append(("V", v["name"], v["value"]))
+            if s["k"] == "lazy_call":
+                items.append(("Z", p["lazy"]["name"], p["lazy"]["const"], p["lazy"]["var"]))
             if s["k"] == "load":
                 prod = kept_nodes(p).get(s["path"])
                 if prod is not None and s["path"] not in stack:
@@ -580,6 +642,16 @@ def e_set_var(p, vid, idx=1):
     new = cands[(idx - 1) % len(cands)]
     v["value"] = new
     return q, {"kind": "set_var", "var": v["name"], "var_kind": v["kind"], "site": ["V", v["name"]], "from": cur, "to": new}
+
+
+def e_set_lazy(p, what):
+    """Edits the lazily imported module: the constant in its function or its variable."""
+    q = clone(p)
+    if what == "const":
+        q["lazy"]["const"] += 1000
+    else:
+        q["lazy"]["var"] = str(int(q["lazy"]["var"]) + 1)
+    return q, {"kind": "set_lazy_" + what, "site": ["Z", q["lazy"]["name"]]}
 
 
 def e_set_const(p, fid, delta=1000):
